@@ -35,11 +35,25 @@ def dictionary(rng, tier):
                     resps.append(("%s: %s (chunked)" % (h.decode(), v.decode("latin-1")), b"HTTP/1.1 200 OK\r\n" + line + b"Transfer-Encoding: chunked\r\n\r\n" + chunked_body))
                 else:
                     resps.append(("%s: %s (chunked syntax follows)" % (h.decode(), v.decode("latin-1")), b"HTTP/1.1 200 OK\r\n" + line + b"\r\n" + chunked_body))
+                # no framing field at all: the message ends with its header block, whatever the field says, and what follows
+                # (another message, text) is not touched
+                resps.append(("%s: %s (no framing field, a response follows)" % (h.decode(), v.decode("latin-1")), b"HTTP/1.1 200 OK\r\n" + line + b"\r\nHTTP/1.1 204 No Content\r\n\r\n"))
+                reqs.append(("%s: %s (no framing field, a request follows)" % (h.decode(), v.decode("latin-1")), b"GET / HTTP/1.1\r\n" + line + b"\r\nGET /next HTTP/1.1\r\n\r\n"))
         if b" " not in t:
             reqs.append(("method %s" % t.decode("latin-1"), t + b" / HTTP/1.1\r\nHost: a\r\n\r\n"))
             reqs.append(("header name %s" % t.decode("latin-1"), b"GET / HTTP/1.1\r\n" + t + b": v\r\n\r\n"))
             resps.append(("header name %s" % t.decode("latin-1"), b"HTTP/1.1 200 OK\r\n" + t + b": 3\r\nContent-Length: 3\r\n\r\nabcXY"))
             resps.append(("trailer field %s" % t.decode("latin-1"), b"HTTP/1.1 200 OK\r\nTransfer-Encoding: chunked\r\n\r\n2\r\nab\r\n0\r\n" + t + b": v\r\nX: y\r\n\r\nZ"))
+    for h, v in gen.REALISTIC_FIELDS:
+        line = h + b": " + v + b"\r\n"
+        lab = "%s: %s" % (h.decode(), v.decode("latin-1"))
+        for code in (b"200 OK", b"101 Switching Protocols", b"426 Upgrade Required", b"206 Partial Content"):
+            resps.append((lab + " (%s, no framing field, text follows)" % code.decode(), b"HTTP/1.1 " + code + b"\r\n" + line + b"\r\nhello, world"))
+            resps.append((lab + " (%s, fixed)" % code.decode(), b"HTTP/1.1 " + code + b"\r\n" + line + b"Content-Length: 3\r\n\r\nabcXY"))
+            resps.append((lab + " (%s, chunked)" % code.decode(), b"HTTP/1.1 " + code + b"\r\n" + line + b"Transfer-Encoding: chunked\r\n\r\n" + chunked_body + b"HTTP/1.1 200 OK\r\n\r\n"))
+        resps.append((lab + " (no framing field, a response follows)", b"HTTP/1.1 200 OK\r\n" + line + b"\r\nHTTP/1.1 204 No Content\r\n\r\n"))
+        reqs.append((lab + " (no framing field, a request follows)", b"GET / HTTP/1.1\r\n" + line + b"\r\nGET /next HTTP/1.1\r\n\r\n"))
+        reqs.append((lab + " (fixed, a request follows)", b"POST / HTTP/1.1\r\n" + line + b"Content-Length: 3\r\n\r\nabcGET /next HTTP/1.1\r\n\r\n"))
     return reqs, resps
 
 
